@@ -226,6 +226,30 @@ def subclass_ids(q, only_exceptions=False):
     return r
 
 
+_member_uniform = {}
+
+
+def member_is_uniform(q, attr):
+    """does every registered subclass of q have the same value for the class-level member attr as q itself?"""
+    key = (q, attr)
+    if key not in _member_uniform:
+        ensure_registry()
+        base = cls_obj(q)
+        ref = getattr(base, attr, None)
+        ok = True
+        for qq, c in list(_cls_objs.items()):
+            try:
+                if c is not base and issubclass(c, base):
+                    v = getattr(c, attr, None)
+                    if v is not ref and v != ref:
+                        ok = False
+                        break
+            except Exception:
+                continue
+        _member_uniform[key] = ok
+    return _member_uniform[key]
+
+
 def _subclass_ids(q):
     base = cls_obj(q)
     out = []
